@@ -69,6 +69,31 @@ class OverloadHigherOrderError(Error):
     func: str
 
 
+_UNTYPED = object()
+
+
+def _literal_arg_types(args: list[ast.expr]) -> list[tuple[ast.Constant, object]]:
+    """Records the type annotations of the arguments that are plain literals.
+
+    Checking a literal against a variant annotates the `ast.Constant` node itself, e.g.
+    `1` becomes an `int` after a (failed) attempt against `float` or a generic parameter
+    and a `nat` after an attempt against `nat`. The next variant must see the literal
+    as written. Only top-level `ast.Constant` arguments are reset: they have no children
+    and are never rewritten in place, so no already checked sub-tree can lose a type it
+    relies on (compound arguments keep whatever an earlier attempt synthesized).
+    """
+    return [(a, getattr(a, "type", _UNTYPED)) for a in args if type(a) is ast.Constant]
+
+
+def _reset_literal_arg_types(saved: list[tuple[ast.Constant, object]]) -> None:
+    for node, ty in saved:
+        if ty is _UNTYPED:
+            if hasattr(node, "type"):
+                del node.type
+        else:
+            node.type = ty  # type: ignore[attr-defined]
+
+
 @dataclass(frozen=True)
 class OverloadedFunctionDef(CompiledCallableDef, CallableDef):
     func_ids: list[DefId]
@@ -85,8 +110,10 @@ class OverloadedFunctionDef(CompiledCallableDef, CallableDef):
             defn = ctx.globals[def_id]
             assert isinstance(defn, CallableDef)
             available_sigs.append(defn.ty)
+            saved = _literal_arg_types(args)
             with suppress(GuppyError):
                 return defn.check_call(args, ty, node, ctx)
+            _reset_literal_arg_types(saved)
         return self._call_error(args, node, ctx, available_sigs, ty)
 
     def synthesize_call(
@@ -97,8 +124,10 @@ class OverloadedFunctionDef(CompiledCallableDef, CallableDef):
             defn = ctx.globals[def_id]
             assert isinstance(defn, CallableDef)
             available_sigs.append(defn.ty)
+            saved = _literal_arg_types(args)
             with suppress(GuppyError):
                 return defn.synthesize_call(args, node, ctx)
+            _reset_literal_arg_types(saved)
         return self._call_error(args, node, ctx, available_sigs)
 
     def _call_error(
@@ -117,7 +146,11 @@ class OverloadedFunctionDef(CompiledCallableDef, CallableDef):
             span = to_span(node)
 
         synth = ExprSynthesizer(ctx)
+        # Synthesizing the types for the message must not re-type literal arguments either:
+        # an enclosing overloaded call may check this call again against its next variant
+        saved = _literal_arg_types(args)
         arg_tys = [synth.synthesize(arg)[1] for arg in args]
+        _reset_literal_arg_types(saved)
         err = OverloadNoMatchError(span, self.name, arg_tys, return_ty)
         err.add_sub_diagnostic(AvailableOverloadsHint(None, self.name, available_sigs))
         raise GuppyError(err)
